@@ -117,7 +117,10 @@ def read_pil(data, is_file = False, ignore = None):
             out['domains'][obj.name] = obj
             comp = ~obj
             if obj.sequence is not None and comp.sequence is None:
-                comp.sequence = reverse_wc_complement(obj.sequence, material = 'DNA')
+                try:
+                    comp.sequence = reverse_wc_complement(obj.sequence, material = 'DNA')
+                except KeyError as err:
+                    raise PilFormatError(f"Not an IUPAC nucleotide code: {err}.")
             out['domains'][comp.name] = comp
             del comp # so important
         elif isinstance(obj, Strand):
